@@ -720,10 +720,24 @@ SAFE_BUILTINS = {"bool", "str", "repr", "isinstance", "type", "callable", "id"}
 
 
 def _needed_exceptions(op) -> set:
+    """Exception classes the operation can raise over the value types a field can hold
+    (int, float, bytes, str, None, tuple, TupleCoord) and any literal on the other side:
+      val.method(x)      AttributeError (no such method), TypeError (wrong argument type)
+      x in val           TypeError (int/float/None is no container; str in bytes), and ValueError:
+                         `300 in b"..."` - an int needle outside range(256) in a bytes container
+      val in x           TypeError
+      < <= > >=          TypeError
+      & | ^ + - * ...    TypeError
+      val[x]             TypeError, IndexError, KeyError
+    """
     if isinstance(op, ast.Call) and isinstance(op.func, ast.Attribute):
         return {"AttributeError", "TypeError"}
     if isinstance(op, (ast.Attribute,)):
         return {"AttributeError"}
+    if isinstance(op, ast.Compare) and any(isinstance(o, (ast.In, ast.NotIn)) for o in op.ops):
+        return {"TypeError", "ValueError"}
+    if isinstance(op, ast.Subscript):
+        return {"TypeError", "IndexError", "KeyError"}
     return {"TypeError"}
 
 
@@ -1925,6 +1939,7 @@ def r8(ctx):
     mg = repo.fn("LLUDPMessageLogEntry.message")
     loads = [c for c in calls(mg.node) if call_attr(c) == "loads" and c.args and ap(c.args[0]) == "self._frozen_message"]
     dumps = [c for c in calls(f.node) if call_attr(c) == "dumps"]
+    r8_strong_deserializer(ctx)
     if dumps or loads:
         ctx.ob("C18.R8", "freeze / message use the same pickling module both ways",
                bool(dumps) and bool(loads) and {ap(c.func).rsplit(".", 1)[0] for c in dumps} == {ap(c.func).rsplit(".", 1)[0] for c in loads},
@@ -1980,6 +1995,130 @@ def _int_enum_family(repo, ci, seen=None):
         if fam:
             return fam, [ci] + chain
     return None, []
+
+
+def r8_strong_deserializer(ctx):
+    """Message.deserializer is only a weak reference; an entry whose message is still unparsed (deferred parsing is
+    the default) needs the deserializer itself to stay alive and to be re-attached on thaw."""
+    repo = ctx.repo
+    lcls = repo.cls("LLUDPMessageLogEntry", LOGR)
+    getter = repo.lookup_method(lcls, "message")
+    ctx.require(getter is not None, "LLUDPMessageLogEntry.message vanished")
+    gcode = [g for g, _ in effective_code(repo, lcls, "message", depth=2)]
+    attach = [st for g in gcode for st in stores(g.node) if st.kind == "assign" and st.path.endswith(".deserializer") and
+              not st.path.startswith("self.") and st.value is not None]
+    slots = sorted({x.attr for st in attach for x in ast.walk(st.value) if isinstance(x, ast.Attribute) and
+                    isinstance(x.value, ast.Name) and x.value.id == "self"})
+    ctx.ob("C18.R8", "thawing re-attaches a deserializer kept by the entry to the unpickled message", len(slots) == 1, getter.where,
+           f"the thawed message gets its deserializer from {slots or 'nothing'}: an unparsed (deferred) body can no longer be parsed")
+    if len(slots) != 1:
+        return
+    slot = slots[0]
+
+    def leaves(fi, e, depth=0):
+        if depth > 5:
+            return [("unknown", e)]
+        if isinstance(e, ast.IfExp):
+            return leaves(fi, e.body, depth + 1) + leaves(fi, e.orelse, depth + 1)
+        if isinstance(e, ast.BoolOp):
+            vals = e.values if isinstance(e.op, ast.Or) else e.values[-1:]
+            return [x for v in vals for x in leaves(fi, v, depth + 1)]
+        if isinstance(e, ast.Constant) and e.value is None:
+            return []
+        if isinstance(e, ast.Call) and isinstance(e.func, ast.Attribute) and e.func.attr == "deserializer" and not e.args:
+            return [("strong", e)]
+        if isinstance(e, ast.Call) and isinstance(e.func, ast.Name) and not e.args:
+            # calling a local that holds the message's weak reference dereferences it
+            vals = [st.value for st in stores(fi.node, into_defs=False) if st.path == e.func.id and st.kind == "assign" and st.value is not None]
+            if vals and all(isinstance(v, ast.Attribute) and v.attr == "deserializer" for v in vals):
+                return [("strong", e)]
+        wk = ap(e.func) if isinstance(e, ast.Call) else None
+        if wk in ("weakref.ref", "weakref.proxy", "weakref.WeakMethod") or \
+                (wk in ("ref", "proxy") and fi.module.imports.get(wk, "").startswith("weakref.")):
+            return [("weak", e)]
+        if isinstance(e, ast.Attribute) and e.attr == "deserializer":
+            return [("weak", e)]
+        if isinstance(e, ast.Attribute) and ap(e) == f"self.{slot}":
+            return []
+        if isinstance(e, ast.Call) and isinstance(e.func, ast.Attribute) and isinstance(e.func.value, ast.Name) and \
+                e.func.value.id in ("self", "cls"):
+            m = repo.lookup_method(lcls, e.func.attr)
+            if m is not None:
+                return [x for r in returns_of(m.node) if r.value is not None for x in leaves(m, r.value, depth + 1)]
+        if isinstance(e, ast.Name):
+            vals = [st.value for st in stores(fi.node, into_defs=False) if st.path == e.id and st.kind == "assign" and st.value is not None]
+            if vals:
+                return [x for v in vals for x in leaves(fi, v, depth + 1)]
+        return [("unknown", e)]
+    n_strong = 0
+    for m in lcls.methods.values():
+        for st in stores(m.node):
+            if st.path == f"self.{slot}" and st.kind == "assign" and st.value is not None:
+                lv = leaves(m, st.value)
+                weak = [norm(x) for k, x in lv if k == "weak"]
+                n_strong += sum(1 for k, _ in lv if k == "strong")
+                ctx.ob("C18.R8", f"{m.qual}: self.{slot} keeps the deserializer itself, not the message's weak reference",
+                       not weak, ctx.w(m, st.node),
+                       f"`{weak[0] if weak else ''}` is (only) a weak reference: once the session's deserializer is collected, a "
+                       f"frozen / not yet parsed entry thaws to a message without blocks")
+    ctx.ob("C18.R8", f"the entry takes a strong reference to the message's deserializer (self.{slot} = <msg>.deserializer())",
+           n_strong >= 1, lcls.methods.get("__init__", getter).where,
+           "nothing keeps the deserializer of a deferred message alive for the lifetime of the entry")
+    for st in attach:
+        wraps = isinstance(st.value, ast.Call) and call_attr(st.value) in ("ref", "WeakMethod") or isinstance(st.value, ast.Lambda)  # noqa
+        ctx.ob("C18.R8", "thawing hands the message a callable reference (weakref.ref) to the kept deserializer",
+               bool(wraps) or n_strong == 0, ctx.w(getter, st.node),
+               f"`{norm(st.value)}`: Message.ensure_parsed calls message.deserializer() - the kept object itself is not a reference")
+
+
+def r13(ctx):
+    repo = ctx.repo
+    ctx.rule("C18.R13", "export/import keeps value types: every value class the LLUDP decoder puts into block variables "
+                        "survives the LLSD notation form with its type, or the import path converts it back by template type")
+    from .c01 import PACK
+    pk = repo.cls("TemplateDataPacker", PACK)
+    specs = repo.class_attr(pk, "SPECS")
+    ctx.require(isinstance(specs, ast.Dict), "TemplateDataPacker.SPECS is not a dict literal")
+    pmod = repo.module(PACK)
+    classes = {}
+    for v in specs.values:
+        for c in ([v] if isinstance(v, ast.Call) else []) + [x for x in ast.walk(v) if isinstance(x, ast.Call)]:
+            for a in c.args:
+                if isinstance(a, ast.Name):
+                    ci = repo.resolve_class(a.id, pmod)
+                    if ci is not None and ci.module.rel.endswith("datatypes.py"):
+                        classes[ci.name] = ci
+    ctx.floor("C18.R13", "repo value classes constructed by TemplateDataPacker.SPECS", len(classes), 3)
+    fm = repo.cls("HippoLLSDBaseFormatter", LLSD)
+    init = repo.lookup_method(fm, "__init__")
+    ctx.require(init is not None, "HippoLLSDBaseFormatter.__init__ vanished")
+    enc = {}
+    lmod = repo.module(LLSD)
+    for st in stores(init.node):
+        if st.kind == "setitem" and st.path == "self.type_map" and isinstance(st.target.slice, ast.Name) and \
+                isinstance(st.value, ast.Attribute):
+            ci = repo.resolve_class(st.target.slice.id, lmod)
+            h = repo.lookup_method(fm, st.value.attr)
+            form = st.value.attr
+            if h is not None:
+                rets = returns_of(h.node)
+                if len(rets) == 1 and isinstance(rets[0].value, ast.Call) and isinstance(rets[0].value.func, ast.Attribute):
+                    form = rets[0].value.func.attr
+            if ci is not None:
+                enc[ci.name] = form
+    lcls = repo.cls("LLUDPMessageLogEntry", LOGR)
+    imp = [g for g, _ in effective_code(repo, lcls, "from_dict", depth=2)] + [repo.fn("Message.from_dict", MSG)]
+    retyped = any((ap(c.func) or "").split(".")[0] in ("LLSDDataPacker", "LLSDMessageSerializer") or
+                  call_attr(c) in ("LLSDMessageSerializer",) for g in imp for c in calls(g.node))
+    for name, ci in sorted(classes.items()):
+        form = enc.get(name)
+        lost = form in ("ARRAY", "MAP", "STRING")
+        if form is None:
+            ctx.note(f"C18.R13: {name} has no LLSD formatter row; the third-party default decides its export form")
+            continue
+        ctx.ob("C18.R13", f"export/import keeps the type of {name} block values", (not lost) or retyped, ctx.w(lmod, init.node),
+               f"{name} is exported as an LLSD {form.lower()} and comes back as a plain list: Message.from_dict does not re-type "
+               f"values by template, so the re-imported message differs (to_dict, `== (x, y, z)` filters on it)")
 
 
 def r9(ctx):
@@ -2173,6 +2312,7 @@ def run(ctx):
     r10(ctx)
     r11(ctx)
     r12(ctx)
+    r13(ctx)
     ctx.assume("arpeggio semantics: python list = ordered choice committing to the first matching alternative, "
                "string alternatives match by prefix; regex alternatives are not compared")
     ctx.assume("child filter nodes return MatchResult(False, []) | MatchResult(True, fields) (fields possibly empty)")
